@@ -418,6 +418,23 @@ func (c01) Generate(r *sim.Rand, tier string) *sim.Scenario {
 		order = append(order, float64(c))
 	}
 	sc.Data["bporder"] = order
+	if r.Bool(0.4) && len(sc.Steps) > 0 {
+		// fault invalid-call: rejected calls while the graphs are built and between
+		// the back-propagations, on tensors of the graphs
+		var bad []float64
+		for i, nb := 0, r.Range(1, 3); i < nb; i++ {
+			at := r.Intn(len(sc.Steps))
+			tgt := sc.Steps[r.Intn(at+1)].Out
+			pos := float64(sc.Steps[at].Out)
+			if nclients >= 2 && r.Bool(0.3) {
+				pos = float64(-1 - r.Intn(nclients-1))
+				tgt = sc.Steps[r.Intn(len(sc.Steps))].Out
+			}
+			tag, n := pickBad(r, g.shape[tgt])
+			bad = append(bad, pos, float64(badIndexOf(tag)), float64(n), float64(tgt))
+		}
+		sc.Data["bad"] = bad
+	}
 	return sc
 }
 
@@ -443,6 +460,7 @@ type c01prog struct {
 	tracked map[int]bool
 	roots   []int
 	bporder []int
+	badNow  bool // the build in progress performs the scenario's rejected calls
 }
 
 func c01parse(sc *sim.Scenario) (*c01prog, string) {
@@ -580,6 +598,9 @@ type dagRun struct {
 	cmax     uint64
 	fwdSteps uint64
 	err      string // forward error (scenario invalid on this code)
+	badOr    string // a rejected call misbehaved on its own (oracle, message)
+	badMsg   string
+	nbad     map[string]int
 }
 
 func (p *c01prog) build(only map[int]bool, track bool, perturb func(id int, flat []float64) []float64) *dagRun {
@@ -640,8 +661,40 @@ func (p *c01prog) buildX(only map[int]bool, track bool, perturb func(id int, fla
 			run.err = fmt.Sprintf("step %s: %v", s.String(), res.Err)
 			return run
 		}
+		if p.badNow {
+			p.badCalls(run, float64(s.Out))
+			if run.badOr != "" {
+				return run
+			}
+		}
 	}
 	return run
+}
+
+// badCalls performs the scenario's rejected calls scheduled for position pos
+// (a node id: right after that node was built; -1-k: right after the k-th
+// back-propagation). Data["bad"] holds (position, kind, variant, target node).
+func (p *c01prog) badCalls(run *dagRun, pos float64) {
+	b := p.sc.Data["bad"]
+	for i := 0; i+3 < len(b); i += 4 {
+		if b[i] != pos {
+			continue
+		}
+		k := int(b[i+1])
+		x, ok := run.pool.T[int(b[i+3])]
+		if k < 0 || k >= len(badKinds) || !ok {
+			continue
+		}
+		oracle, msg, _, _ := badVerdict(badKinds[k], int(b[i+2]), x)
+		if run.nbad == nil {
+			run.nbad = map[string]int{}
+		}
+		run.nbad["invalid-call/"+badKinds[k]]++
+		if oracle != "" {
+			run.badOr, run.badMsg = oracle, fmt.Sprintf("rejected call after position %v on node %d: %s", pos, int(b[i+3]), msg)
+			return
+		}
+	}
 }
 
 // contractionFloors: a backward rule may contract (MatMul, Dot, the averaging
@@ -867,10 +920,26 @@ func (prop c01) Execute(sc *sim.Scenario) *sim.Outcome {
 	}
 
 	/* 1. the program itself */
+	p.badNow = len(sc.Data["bad"]) >= 4
 	main := p.build(nil, true, nil)
+	p.badNow = false
 	if main.err != "" {
 		out.Discard = "forward-error"
 		return out
+	}
+	badDone := func() bool {
+		for k, n := range main.nbad {
+			out.Faults[k] += n
+		}
+		main.nbad = nil
+		if main.badOr != "" {
+			out.Fail(main.badOr, "%s", main.badMsg)
+			return false
+		}
+		return true
+	}
+	if !badDone() {
+		return fin()
 	}
 	expect := map[int]bool{}
 	meet := map[int]int{}
@@ -909,7 +978,7 @@ func (prop c01) Execute(sc *sim.Scenario) *sim.Outcome {
 	}
 	out.Nontrivial = reconv || shareMeet
 	haveRules := sim.HaveGradRuleSites()
-	for _, c := range p.bporder {
+	for bpi, c := range p.bporder {
 		root := p.roots[c]
 		_, edges := p.upstream(root)
 		budget := 1000 * uint64(edges+1) * (main.cmax + 1)
@@ -947,6 +1016,14 @@ func (prop c01) Execute(sc *sim.Scenario) *sim.Outcome {
 			}
 			sim.Resume()
 			out.Faults["reorder/gradients-read-between-backprops"]++
+		}
+		if len(sc.Data["bad"]) >= 4 {
+			sim.Pause()
+			p.badCalls(main, float64(-1-bpi))
+			sim.Resume()
+			if !badDone() {
+				return fin()
+			}
 		}
 		if main.cmax > 0 {
 			ratio := int(used / (uint64(edges+1) * main.cmax))
